@@ -794,13 +794,18 @@ def check_configs(ctx, clsname, mod, short, stream, configs):
 def check_pid_path(ctx):
     """(A) tx_pid_toggle index -> PID byte in the packet generator, and the device-level wiring."""
     g = ctx.ir('USBDataPacketGenerator', 'usb2.packet')
-    lp = [a for a in g.assigns if isinstance(a.rhs, E) and a.rhs.op == 'arr' and a.rhs.args and isinstance(a.rhs.args[0], E)
-          and a.rhs.args[0].canon() == 'self.data_pid']
-    ctx.need(len(lp) >= 1, 'PID table lookup indexed by data_pid in USBDataPacketGenerator')
-    for a in lp:
-        els = [x.val if isinstance(x, E) and x.op == 'const' else None for x in a.rhs.args[1:]]
-        ctx.need(all(isinstance(v, int) for v in els), 'constant entries of the PID table (found %s)' % [
-            x.canon() if isinstance(x, E) else repr(x) for x in a.rhs.args[1:]])
+    # the register that takes a constant selected by data_pid: `Array(...)[data_pid]` or one constant per value (Switch)
+    cand = {}
+    for a in g.assigns:
+        if isinstance(a.lhs, E) and a.lhs.op == 'sig' and a.domain != 'comb' and isinstance(a.rhs, E) and \
+                ('self.data_pid' in a.rhs.sigs() or any('self.data_pid' in x for x, _ in q.atoms(a))):
+            cand.setdefault(a.lhs.canon(), []).append(a)
+    tabs = [(n, q.const_table(ds, 'self.data_pid')) for n, ds in sorted(cand.items())]
+    tabs = [(n, t) for n, t in tabs if t is not None]
+    ctx.need(len(tabs) >= 1, 'PID table lookup indexed by data_pid in USBDataPacketGenerator')
+    for n_, t_ in tabs:
+        els, a = t_[0], t_[1][0]
+        ctx.need(all(isinstance(v, int) for v in els), 'constant entries of the PID table (found %s)' % els)
         ctx.ob('C15.pid-encoding', 'USBDataPacketGenerator.data_pid-table', els[:3] == [0xC3, 0x4B, 0x87], a.loc,
                'data_pid 0/1/2 must select DATA0 (0xC3) / DATA1 (0x4B) / DATA2 (0x87): table %s' % [hex(x) if isinstance(x, int) else x for x in els])
     d = ctx.ir('USBDevice', 'usb2.device', allow_opaque=True)
